@@ -175,9 +175,9 @@ def run_schedule(v, wd, r, nreloads, with_fifo, mode="auth"):
     if mode == "auth":
         server = sd.Server(wd, ["--authoritative-only", "-z", disk.path("a"), "-Z", os.path.join(base, "dir")])
     else:
-        # a forwarding resolver whose forwarder answers SERVFAIL to everything: whatever the configuration does not
-        # answer by itself fails, so every reply is still a function of the configuration in force
-        upstream = sd.MockUpstream({}, behaviour="table")
+        # a forwarding resolver whose forwarder answers every question with an empty NOERROR reply: what the
+        # configuration contributes is the whole reply, so every reply is still a function of the configuration in force
+        upstream = sd.MockUpstream({}, behaviour="empty")
         server = sd.Server(wd, ["--forward-address", "127.0.0.1:%d" % upstream.port, "-z", disk.path("a"),
                                 "-Z", os.path.join(base, "dir")])
     events = []
@@ -290,8 +290,8 @@ def run(tier):
               "symbolic link - replaced by re-pointing the link, a named pipe that makes the reload slow) "
               "each followed by SIGUSR1, while two client threads query continuously; alias answers cross both files, so "
               "a mixed configuration would show in a single reply.  TLC validates the trace with the set of "
-              "configurations possibly in force. The same in forwarding mode with a forwarder that answers SERVFAIL to "
-              "everything (replies are then still a function of the configuration), with ANY questions for names the "
+              "configurations possibly in force. The same in forwarding mode with a forwarder that answers every question "
+              "with an empty reply (replies are then still a function of the configuration), with ANY questions for names the "
               "hosts-style files override. An evaluation is one query answered or one reload.")
     v.assumptions = ["A3: files are replaced atomically (rename) and not edited while a reload is loading",
                      "the success / failure of a reload is read from the server's log"]
@@ -307,7 +307,7 @@ def run(tier):
     v.exhaustive = True
     nsched, nreloads = (2, 22) if tier == "quick" else (12, 45)
     total_q = total_r = 0
-    plan = [("auth", nreloads, i == 0) for i in range(nsched)] + [("fwd-dead", 16 if tier == "quick" else 40, False)] * (1 if tier == "quick" else 4)
+    plan = [("auth", nreloads, i == 0) for i in range(nsched)] + [("fwd-empty", 16 if tier == "quick" else 40, False)] * (1 if tier == "quick" else 4)
     for sidx, (mode, nrel, fifo) in enumerate(plan):
         head, events = run_schedule(v, os.path.join(wd, "s%d" % sidx), r_, nrel, with_fifo=fifo, mode=mode)
         path = os.path.join(wd, "reload-%d.trace.ndjson" % sidx)
